@@ -99,7 +99,7 @@ class C04(Campaign):
                  "fault-free run becomes a crash point; post-fault behaviour vs. reference interpreter")
     coarse = True
     quick_runs = 900
-    thorough_runs = 9000
+    thorough_runs = 3600
     chunk = 15
     fault_kinds = ["raise@validators", "raise@cond", "raise@unless", "raise@before", "raise@exit", "raise@on",
                    "raise@enter", "raise@after", "raise@initial-activation", "raise@nested-or-queued-event",
@@ -107,7 +107,7 @@ class C04(Campaign):
     rule = ("one scenario = a generated machine with nested sends (rtc on/off, sync/async callbacks, "
             "machine/model/listener providers) and a 3-12 operation history; a fault-free run numbers its K "
             "callback invocations and the scenario is re-executed with an exception injected at position k "
-            "(all k in the thorough tier, a seeded sample of <=6 in the quick tier; plus double faults and "
+            "(all k in the thorough tier -- a seeded sample of 40 when K > 40 --, a seeded sample of <=6 in the quick tier; plus double faults and "
             "async cancellation at a virtual time). evaluations = executed fault variants (+ the fault-free "
             "run); non-trivial = the injected fault actually fired and at least one probe operation followed; "
             "distinct = distinct (trace digest) among those.")
@@ -209,6 +209,12 @@ class C04(Campaign):
             if mode == "sample":
                 rnd.shuffle(pos)
                 pos = pos[:6]
+            elif len(pos) > 40:
+                # long fan-out histories: a seeded sample of 40 crash points keeps one scenario
+                # within the per-scenario watchdog under full load
+                rnd.shuffle(pos)
+                pos = pos[:40]
+                bump("probe.crash_points_sampled_40_of_many")
             variants = []
             for p in pos:
                 cls = rnd.choice(["SimFault", "SimLookup", "SimValue", "SimBaseFault"])
